@@ -89,7 +89,7 @@ PROPS = {
         trusted=["Model.SM hand-written from diam/sm/cer.go and smparser (CER.Parse, Application.Parse, chooseErr, handleGroup, validate); getLocalAddresses as a table over the harness' endpoint menu"],
     ),
     "C16": dict(
-        domains=[("codec", "answer", 6000, 100000), ("smserver", "hist", 800, 10000), ("smserver", "cer", 800, 10000)],
+        domains=[("codec", "answer", 6000, 100000), ("smserver", "hist", 800, 10000), ("smserver", "cer", 800, 10000), ("sctp", "serve", 300, 4000)],
         relevant=["C16:"],
         theorems=['DV.Props.C16.C16_answer_ids', 'DV.Props.C16.C16_answer_flags', 'DV.Props.C16.C16_answer_result_code', 'DV.Props.C16.C16_answer_stream', 'DV.Props.C16.C16_sctp_stream', 'DV.Props.C16.C16_answer_len', 'DV.Props.C16.C16_gen', 'DV.Props.C16.C16_cea', 'DV.Props.C16.C16_dwa'],
         gen_obligations=['Gen.RequestFlag', 'Gen.InvalidStreamID', 'Gen.Mbit'],
@@ -111,7 +111,7 @@ PROPS = {
         trusted=CONN_TRUST,
     ),
     "C14": dict(
-        domains=[("conn", "closenotify", 600, 8000), ("conn", "cnall4", 1, 1), ("conn", "serve", 200, 2000)],
+        domains=[("conn", "closenotify", 600, 8000), ("conn", "cnall4", 1, 1), ("conn", "serve", 200, 2000), ("sctp", "serve", 300, 4000)],
         thorough_extra=[("conn", "cnall6", 1, 1)],
         relevant=["C14:"],
         theorems=["DV.Props.C14."+t for t in ["C14_once","C14_only_when_gone","C14_quiet","C14_late_request","C14_transparent","C14_nothing_stuck","C14_gen"]],
@@ -132,5 +132,12 @@ PROPS = {
         theorems=["DV.Props.C06."+t for t in ["C06_owned","C06_unchanged","C06_private_buffer","C06_gen","C06_current","C06_alias_counterexample"]],
         gen_obligations=["Gen.sliceKinded","Gen.decoderAliasing","Gen.groupedAVPFields","Gen.bodyBuffer"],
         trusted=CODEC_TRUST + ["Model.Alias: memory model of the pooled reader buffers (sync.Pool may hand any pooled buffer to any later ReadMessage); which decoders copy is read from the source by the extractor and checked behaviourally per data type"],
+    ),
+    "C19": dict(
+        domains=[("sctp", "demux", 6000, 100000), ("sctp", "exhaustive", 1, 1), ("sctp", "serve", 300, 4000)],
+        relevant=["C19:"],
+        theorems=["DV.Props.C19."+t for t in ["C19_perstream","C19_reference","C19_one_message","C19_complete","C19_gen"]],
+        gen_obligations=["Gen.sctpHeaderReads","Gen.sctpHeaderPins","Gen.sctpBodyReads","Gen.sctpAtLeastReads","Gen.connResetsStream","Gen.sctpWriteStreamCalls","Gen.HeaderLength"],
+        trusted=CODEC_TRUST + ["Model.Sctp hand-written from diam/network_sctp.go (ReadAny, ReadStream, ReadAtLeast, verifyStreamBuff, bufferStreamData) and message.go readHeader/readBody; the kernel SCTP socket is replaced by the in-memory backend of the 'verif' hook (diam/verif_sctp.go): chunks are delivered in order, a chunk larger than the caller's buffer continues on the next read, every read carries stream information"],
     ),
 }
